@@ -1,5 +1,5 @@
 --------------------------- MODULE MC_MultiCVRP ---------------------------
-(* Bounded model of MultiCVRP: every instance with demands in 0..MaxDem (<= capacity) over a fixed symbolic
+(* Bounded model of MultiCVRP: every instance with demands in MinDem..MaxDem (<= capacity) over a fixed symbolic
    distance matrix / time windows, every joint action of the documented range (legal or not), every
    admissible conflict resolution, and steps after termination.  The state carries jumanji's own `order`
    array, so the feasibility predicates are the very operators the trace specification evaluates on the
@@ -11,7 +11,7 @@
    return invariants speak about completed episodes. *)
 EXTENDS MultiCVRP
 
-CONSTANTS MaxDem            \* demands of the instances range over 0..MaxDem (0 = customer without demand)
+CONSTANTS MinDem, MaxDem    \* demands of the instances range over MinDem..MaxDem (0 = customer without demand)
 VARIABLES s,                \* [nodes.demands, vehicles.capacities/positions, step_count, order]
           d0,               \* demands as generated
           tm,               \* local time (= length driven) per vehicle
@@ -39,7 +39,7 @@ Mk(dem, cap, pos, sc, ord) ==
   [nodes |-> [demands |-> dem], vehicles |-> [capacities |-> cap, positions |-> pos], step_count |-> sc, order |-> ord]
 
 Init ==
-  /\ \E dm \in [Customers -> 0..Min2(MaxDem, Q)] :
+  /\ \E dm \in [Customers -> MinDem..Min2(MaxDem, Q)] :
         /\ d0 = [j \in 1..(N + 1) |-> IF j = 1 THEN 0 ELSE dm[j - 1]]
         /\ s = Mk(d0, [v \in Vehicles |-> Q], [v \in Vehicles |-> Depot], 1,
                   [v \in Vehicles |-> [j \in 1..Horizon |-> 0]])
